@@ -3,6 +3,7 @@ CONSTANTS
   MaxRestarts = 3
   MaxReq = 2
   Urls = {"a", "b"}
+  DefinedChoices <- AllDefined
   JailChoices = {FALSE, TRUE}
   Statuses = {200}
   KCover = 1
